@@ -59,6 +59,8 @@ def _constants_lost(m1, m2, inline_const=False) -> str:
     NaN, infinities, signed zeros, exact bit patterns of tables.)  Scalars with ordinary values may legitimately be re-typed when
     they are inlined as Python literals and are left to the semantic comparison."""
     def key(a):
+        if a.dtype.kind in "OSU":
+            return ("string", tuple(a.shape), repr([x.decode() if isinstance(x, bytes) else str(x) for x in a.reshape(-1).tolist()]))
         return (str(a.dtype), tuple(a.shape), a.tobytes())
     have = {}
     for a in _constant_tensors(m2):
@@ -69,7 +71,7 @@ def _constants_lost(m1, m2, inline_const=False) -> str:
             continue
         if inline_const and not special and a.ndim <= 1 and a.size < 5 and str(a.dtype) in ("float32", "int64"):
             continue  # rendered as a Python literal: may come back re-typed / re-shaped by promotion; left to the semantic comparison
-        if a.dtype.kind not in "fiub":
+        if a.dtype.kind not in "fiubOSU":
             continue
         if have.get(key(a), 0) == 0:
             return f"constant {a.dtype}{list(a.shape)} {np.array2string(a.reshape(-1)[:6], threshold=6)} has no bitwise equal in the round-tripped model"
@@ -424,6 +426,19 @@ def corpus(tier):
                 except Exception:  # noqa: BLE001
                     continue
                 items.append((f"consttable:{TP.DataType.Name(dt_)}{list(shape_)}:{form_}", m_.SerializeToString(), [("x", int(TP.FLOAT), (2,))]))
+    # a STRING table whose elements contain the letters of the special float values
+    stbl = nh_.from_array(np.array(["info", "banana", "nan", "x inf y"], dtype=object), "stbl")
+    for form_ in ("init", "node"):
+        nodes_ = ([oh.make_node("Constant", [], ["stbl"], value=stbl)] if form_ == "node" else []) + [
+            oh.make_node("Identity", ["stbl"], ["s_out"]), oh.make_node("Neg", ["x"], ["y"])]
+        g_ = oh.make_graph(nodes_, "stringtable", [oh.make_tensor_value_info("x", TP.FLOAT, [2])],
+                           [oh.make_tensor_value_info("y", TP.FLOAT, [2]), oh.make_tensor_value_info("s_out", TP.STRING, [4])], [stbl] if form_ == "init" else [])
+        m_ = oh.make_model(g_, opset_imports=[oh.make_opsetid("", 18)], ir_version=9)
+        try:
+            onnx.checker.check_model(m_, full_check=True)
+            items.append((f"consttable:STRING[4]:{form_}", m_.SerializeToString(), [("x", int(TP.FLOAT), (2,))]))
+        except Exception:  # noqa: BLE001
+            pass
     # small constants that are used as an If-branch output or as the initial value of a Loop state variable (inline_const must
     # still bind them)
     def _cn(name, v):
